@@ -134,6 +134,55 @@ func tableEntryObligation(P *Program, tb *TableSpec, key, fnName string) (obls [
 	if len(tb.Params) != len(fn.Params) || len(c.Params) != len(fn.Params) {
 		return nil, fmt.Errorf("table %s[%q]: %s has %d parameters, table names %d, contract %d", tb.Var, key, fnName, len(fn.Params), len(tb.Params), len(c.Params))
 	}
+	// (a) the table's requires imply the entry function's requires; (c) the entry writes no more than the table allows
+	{
+		e := newEnc(P)
+		fv := &FuncVC{P: P, e: e, name: "table:" + tb.Var, oblCount: map[string]int{}, assumptions: map[string]bool{}}
+		pre := &State{kind: sEntry, h: map[string]Term{}, fv: fv}
+		mk := func(aliases []string, pkgPath string) *Env {
+			env := &Env{e: e, vars: map[string]TV{}, st: pre, old: pre, pkg: pkgPath, alloc0: pre.get("alloc")}
+			for i, a := range aliases {
+				p := fn.Params[i]
+				env.vars[a] = TV{e.constant("p_"+sanitizeIdx(i), e.sortOf(p.Type())), p.Type()}
+			}
+			return env
+		}
+		tenv := mk(tb.Params, tb.Pkg)
+		tenv.vars[tb.KeyVar] = TV{e.strLit(key), tyString}
+		var bg []string
+		for _, r := range tb.Requires {
+			bg = append(bg, "(assert "+tenv.trBool(r.E)+")")
+		}
+		for i, p := range fn.Params {
+			bg = append(bg, "(assert "+fv.wfVal(e.constant("p_"+sanitizeIdx(i), e.sortOf(p.Type())), p.Type(), "", 0)+")")
+		}
+		cenv := mk(c.Params, c.Pkg)
+		var goals []Term
+		for _, r := range c.Requires {
+			goals = append(goals, cenv.trBool(r.E))
+		}
+		var tmods []modEntry
+		for _, m := range tb.Modifies {
+			tmods = append(tmods, fv.modTargets(tenv, m)...)
+		}
+		for _, m := range c.Modifies {
+			for _, cm := range fv.modTargets(cenv, m) {
+				var ds []Term
+				for _, tm := range tmods {
+					if tm.heap == cm.heap {
+						ds = append(ds, eq(tm.id, cm.id))
+					}
+				}
+				goals = append(goals, or(ds...))
+			}
+		}
+		goal := and(goals...)
+		bg = append(bg, fv.bg...)
+		oname := fmt.Sprintf("%s.table:%s[%s]/pre", shortPkg(tb.Pkg), tb.Var, key)
+		obls = append(obls, &Obligation{Name: oname, Kind: "table", Props: tb.Props, Func: oname, Pos: fmt.Sprintf("%s:%d", tb.File, tb.Line),
+			Desc: fmt.Sprintf("entry %q ↦ %s of %s: table requires/modifies cover those of %s", key, fnName, tb.Var, fnName), Goal: goal,
+			lemma: &lemmaVC{script: e.script(bg, "(assert "+not(goal)+")", nil)}})
+	}
 	for k, sem := range tb.Sem {
 		e := newEnc(P)
 		fv := &FuncVC{P: P, e: e, name: "table:" + tb.Var, oblCount: map[string]int{}, assumptions: map[string]bool{}}
